@@ -59,7 +59,25 @@ def impl_case(case):
     try:
         M = G.build_model(case["spec"])
     except ValueError as e:
-        return {"init_error": "ValueError", "msg": str(e)[:200]}
+        out = {"init_error": "ValueError", "msg": str(e)[:200]}
+        # the rejection must not wear off: the same model object, built without initialisation, must fail at EVERY later attempt to
+        # initialise or use it (seeded change S4_C03: the model was marked initialised before its parameters were checked)
+        later = []
+        try:
+            M2 = G.build_model(case["spec"], initialize=False)
+            for attempt in ("py_initialize", "py_initialize", "interface", "simulate"):
+                try:
+                    if attempt == "py_initialize": M2.py_initialize()
+                    elif attempt == "interface": ModelCSimInterface(M2)
+                    else:
+                        from bioscrape.simulator import py_simulate_model
+                        py_simulate_model(np.linspace(0, 1, 3), Model=M2, stochastic=False)
+                    later.append([attempt, "accepted"])
+                except ValueError: later.append([attempt, "ValueError"])
+                except Exception as e2: later.append([attempt, type(e2).__name__])
+        except Exception as e3: later.append(["construction without initialisation", type(e3).__name__])
+        out["later"] = later
+        return out
     s2i = M.get_species2index(); names = case["names"]
     order = [None] * len(s2i)
     for s, i in s2i.items(): order[i] = names.index(s)
@@ -129,6 +147,8 @@ def oracle(case, r):
         used = any(case["unset"] in [v for v in rx["params"].values() if isinstance(v, str)] or (rx["type"] == "general" and case["unset"] in rx["params"]["rate"]) for rx in spec["reactions"])
         if used and not (r and r.get("init_error") == "ValueError"):
             return "parameter %s has no value but model initialisation did not fail: %s" % (case["unset"], json.dumps(r)[:200])
+        bad = [a for a in (r or {}).get("later", []) if a[1] != "ValueError"] if used else []
+        if bad: return "parameter %s has no value: after a failed initialisation the same model was %s by a later %s" % (case["unset"], bad[0][1], bad[0][0])
         return None
     if not r or "S" not in r: return "implementation failed: %s" % json.dumps(r)[:400]
     names = case["names"]; nsp, nrx = r["shape"]
